@@ -250,6 +250,7 @@ func genC02(w *World, res *CheckResult) {
 	}
 	genFoldUnary(w, res)
 	genFoldArray(w, res)
+	genFoldNonConstant(w, res)
 	genInRange(w, res)
 	genInArray(w, res)
 	genConstRange(w, res)
